@@ -42,7 +42,7 @@ def seeded(ctx, n):
                                 "writes": chunks if last or rng.random() < 0.5 else [memr + 2],
                                 "cl0": last and rng.random() < 0.15, "grpc": last and rng.random() < 0.1, "read": "all", "mut": "none",
                                 "panic": last and rng.random() < 0.12})      # the final attempt aborts after its writes
-            steps.append({"method": rng.choice(["GET", "POST", "HEAD", "PUT"]), "framing": rng.choice(["declared", "chunked"]),
+            steps.append({"method": rng.choice(["GET", "POST", "HEAD", "PUT"]), "framing": rng.choice(["declared", "chunked", "unknown"]),
                           "size": size, "hdrs": ["X-A"], "scripts": scripts})
         out.append({"id": "rnd-%d" % i, "cfg": cfg, "steps": steps})
     return out
